@@ -29,13 +29,14 @@ MC_QUICK = [(C, 'MC_RingChannel_q12.cfg', 900), (Q, 'MC_RingQueues_mpmc_wrap21.c
             (Q, 'MC_RingQueues_spsc.cfg', 900), (Q, 'MC_RingQueues_batch21.cfg', 900), (Q, 'MC_RingQueues_batch_wrap.cfg', 900),
             (Q, 'MC_RingQueues_mpmc_sr21.cfg', 900)]
 MC_THOROUGH = [
-    (Q, 'MC_RingQueues_mpmc_pp.cfg', 3400), (Q, 'MC_RingQueues_batch_cap4.cfg', 3400), (C, 'MC_RingChannel_mid.cfg', 3400),
-    (C, 'MC_RingChannel_mid_notimeout.cfg', 3400), (Q, 'MC_RingQueues_mpmc_mix.cfg', 3400), (C, 'MC_RingChannel_os.cfg', 3400),
-    (Q, 'MC_RingQueues_mpmc_cap4.cfg', 3400), (C, 'MC_RingChannel_full_notimeout.cfg', 3400), (Q, 'MC_RingQueues_batch2.cfg', 3400),
-    (Q, 'MC_RingQueues_mpmc_wrap12.cfg', 1800), (C, 'MC_RingChannel_full.cfg', 1800), (Q, 'MC_RingQueues_mpmc_sr.cfg', 900),
+    (Q, 'MC_RingQueues_mpmc_pp.cfg', 3400), (C, 'MC_RingChannel_mid_notimeout.cfg', 3400), (C, 'MC_RingChannel_os.cfg', 3400),
+    (Q, 'MC_RingQueues_mpmc_mix.cfg', 3400), (C, 'MC_RingChannel_full_notimeout.cfg', 3400), (Q, 'MC_RingQueues_batch2.cfg', 3400),
+    (Q, 'MC_RingQueues_mpmc_wrap12.cfg', 1800), (Q, 'MC_RingQueues_batch_cap4.cfg', 1800), (C, 'MC_RingChannel_full.cfg', 1800),
+    (Q, 'MC_RingQueues_mpmc_cap4.cfg', 900), (Q, 'MC_RingQueues_mpmc_sr.cfg', 900), (Q, 'MC_RingQueues_batch_cap4w.cfg', 900),
     (Q, 'MC_RingQueues_mpmc_wrapsr.cfg', 900), (Q, 'MC_RingQueues_spsc_cap4.cfg', 900)] + MC_QUICK
-# the full 2 x 2 x 2 channel population (31.5 million states each, ~25 CPU minutes each): VERIF_C07_BIG=1
-MC_BIG = [(C, 'MC_RingChannel_big_timed.cfg', 7200), (C, 'MC_RingChannel_big_notimeout.cfg', 7200)]
+# the full 2 x 2 x 2 channel population (31.5 million states each, ~25 CPU minutes each) and the 2 x 2 channel with 2+1 calls with
+# time-outs (same reachable states as mid_notimeout): VERIF_C07_BIG=1
+MC_BIG = [(C, 'MC_RingChannel_big_timed.cfg', 7200), (C, 'MC_RingChannel_big_notimeout.cfg', 7200), (C, 'MC_RingChannel_mid.cfg', 3400)]
 # broken variants: (module, cfg, invariant that must be violated)
 BROKEN = [(Q, 'MC_RingQueues_mpmc_broken.cfg', 'NoTornSlot'), (Q, 'MC_RingQueues_batch_broken.cfg', 'NoTornSlot'),
           (Q, 'MC_RingQueues_spsc_broken.cfg', 'NoTornSlot'),
@@ -104,8 +105,11 @@ def run(ctx):
         if not quick:
             wit = {}
             for cfg, what, text in WITNESS:
-                r = ctx.mc(Q, cfg, timeout=900, workers=4, count=False)
-                wit[cfg] = {'expected': what, 'reported': r['inv_violated'] or ('Terminates' if r['prop_violated'] else []), 'what': text}
+                r = ctx.tlc(Q, cfg, workers=4, timeout=900)
+                seen = r['inv_violated'] + (['Terminates'] if 'Temporal property Terminates was violated' in r['out'] or r['prop_violated'] else [])
+                if r['timeout'] or (r['rc'] not in (0, 12, 13)):
+                    raise vtlib.InfraError(f'TLC failed on {Q}/{cfg} rc={r["rc"]} (see {r["log"]})')
+                wit[cfg] = {'expected': what, 'reported': seen, 'still_shown': what in seen, 'what': text}
             ctx.extra['as_is_behaviours_outside_C07'] = wit
     ctx.build_lib()
     h = ctx.build_harness('h_ring')
